@@ -10,4 +10,4 @@ Extraction Language OCaml.
 Extraction "model.ml"
   OutDir.run_history OutDir.observe OutDir.spec_dir OutDir.empty_dir OutDir.write
   GoLit.encode GoLit.go_eval GoLit.embeddable
-  Serve.serve ServeSpec.serve_spec RouterSpec.match_request Router.route_root Serve.gen_tree.
+  Serve.serve Serve.gen_accepts ServeSpec.serve_spec RouterSpec.match_request Router.route_root Serve.gen_tree.
